@@ -88,10 +88,14 @@ func ruleClientIDs(c *Ctx, r1, r2, r3 string) {
 	nStores := 0
 	for _, f := range w.Funcs {
 		for _, st := range storesToField(f, counter) {
+			if st.Parent() != f {
+				continue // a store in a helper used only here: visited with that helper, attributed to its user below
+			}
 			if fa, ok := st.Addr.(*ssa.FieldAddr); ok && freshAllocStrict(fa.X) {
 				continue
 			}
 			nStores++
+			f := regionRoot(f) // the function the (single-use) helper belongs to
 			key := "write of " + counter.String() + " in " + w.Short(f)
 			b, isB := st.Val.(*ssa.BinOp)
 			one := false
@@ -1060,8 +1064,8 @@ func ruleClosePathsReachCarrier(c *Ctx, rule string) {
 	if okDone {
 		okDone = false
 		for _, f := range factsAt(done) {
-			if x, op, y, ok := cmpFact(f); ok && op == token.EQL && stripConv(x) == ssa.Value(addCall) && isNilConst(y) {
-				okDone = true
+			if x, op, y, ok := cmpFact(f); ok && op == token.EQL && (stripConv(x) == ssa.Value(addCall) || origin(x) == ssa.Value(addCall)) && isNilConst(y) {
+				okDone = true // (the result may have been assigned to the named error result first)
 			}
 		}
 	}
@@ -1187,7 +1191,20 @@ func ruleStickyAfterFinish(c *Ctx, rule string) {
 	if cs := w.methodFn(a.CS, "CloseSend"); cs != nil {
 		done, okD := c.doneSignalField()
 		okNB := false
-		allInstrs(cs, func(in ssa.Instruction) {
+		// CloseSend itself and what it runs on its own goroutine for the same stream (its body may be handed to a
+		// lock-taking helper as a method value: st.withWriteLock(st.closeSendLocked))
+		var body []*ssa.Function
+		for g := range w.sameGoroutineReach(cs, nil) {
+			if g == cs || (recvNamed(g) != nil && a.CS != nil && recvNamed(g).Obj() == a.CS.Obj() && g.Name() != "SendMsg" && g.Name() != "RecvMsg") {
+				body = append(body, g)
+			}
+		}
+		visit := func(f func(in ssa.Instruction)) {
+			for _, g := range body {
+				allInstrsLocal(g, f)
+			}
+		}
+		visit(func(in ssa.Instruction) {
 			if sel, ok := in.(*ssa.Select); ok && !sel.Blocking && okD {
 				for _, st := range sel.States {
 					if fr, _, ok := loadedField(st.Chan); ok && fr == done {
@@ -1229,33 +1246,42 @@ func ruleCloseSendAfterFinish(c *Ctx, rule string) {
 	}
 	nMarker, okAll := 0, true
 	var at ssa.Instruction
-	forEachReturnValue(cs, 0, func(v0 ssa.Value, ret ssa.Instruction) {
-		cases := valueCases(v0, 4)
-		if c.readsMarker(v0, a.CSDone) {
-			cases = []valueCase{{stripConv(v0), nil}} // `return st.loadDone()`: the marker itself, not the helper's alternatives
+	// CloseSend and the methods of the stream it runs (its body may be handed to a lock-taking helper as a method value)
+	body := []*ssa.Function{cs}
+	for g := range w.sameGoroutineReach(cs, nil) {
+		if g != cs && recvNamed(g) != nil && a.CS != nil && recvNamed(g).Obj() == a.CS.Obj() && g.Signature.Results().Len() == 1 && isErrorType(g.Signature.Results().At(0).Type()) && g.Name() != "SendMsg" && g.Name() != "RecvMsg" && len(g.Params) <= 1 {
+			body = append(body, g)
 		}
-		for _, vc := range cases {
-			if !c.readsMarker(vc.Val, a.CSDone) {
-				continue
+	}
+	for _, bf := range body {
+		forEachReturnValue(bf, 0, func(v0 ssa.Value, ret ssa.Instruction) {
+			cases := valueCases(v0, 4)
+			if c.readsMarker(v0, a.CSDone) {
+				cases = []valueCase{{stripConv(v0), nil}} // `return st.loadDone()`: the marker itself, not the helper's alternatives
 			}
-			nMarker++
-			notEOF := false
-			for _, f := range append(append([]EdgeFact{}, factsAt(ret)...), vc.Facts...) {
-				x, op, y, isCmp := cmpFact(f)
-				if isCmp && op == token.NEQ && desc(y) == "*global:EOF" && origin(x) == origin(vc.Val) {
-					notEOF = true
+			for _, vc := range cases {
+				if !c.readsMarker(vc.Val, a.CSDone) {
+					continue
+				}
+				nMarker++
+				notEOF := false
+				for _, f := range append(append([]EdgeFact{}, factsAt(ret)...), vc.Facts...) {
+					x, op, y, isCmp := cmpFact(f)
+					if isCmp && op == token.NEQ && desc(y) == "*global:EOF" && origin(x) == origin(vc.Val) {
+						notEOF = true
+					}
+				}
+				for _, bf := range boolFactsOf(append(append([]EdgeFact{}, factsAt(ret)...), vc.Facts...)) {
+					if call, ok := bf.V.(*ssa.Call); ok && !bf.True && calleeName(call) == "errors.Is" && len(call.Call.Args) == 2 && origin(call.Call.Args[0]) == origin(vc.Val) && desc(call.Call.Args[1]) == "*global:EOF" {
+						notEOF = true
+					}
+				}
+				if !notEOF {
+					okAll, at = false, ret
 				}
 			}
-			for _, bf := range boolFactsOf(append(append([]EdgeFact{}, factsAt(ret)...), vc.Facts...)) {
-				if call, ok := bf.V.(*ssa.Call); ok && !bf.True && calleeName(call) == "errors.Is" && len(call.Call.Args) == 2 && origin(call.Call.Args[0]) == origin(vc.Val) && desc(call.Call.Args[1]) == "*global:EOF" {
-					notEOF = true
-				}
-			}
-			if !notEOF {
-				okAll, at = false, ret
-			}
-		}
-	})
+		})
+	}
 	pos := posOf(w, cs)
 	if at != nil {
 		pos = w.At(at)
@@ -1322,7 +1348,7 @@ func ruleShutdownFlags(c *Ctx, rule string) {
 	}
 	okCmp := false
 	forEachReturnValueThrough(isc, 0, func(v ssa.Value, at ssa.Instruction) {
-		if b, ok := v.(*ssa.BinOp); ok && b.Op == token.GEQ && isFieldLoad(b.X, stF) {
+		if b, ok := v.(*ssa.BinOp); ok && b.Op == token.GEQ && isFieldLoadThrough(b.X, stF) {
 			k, isK := constInt(origin(b.Y)) // the bound may be the argument of a shared 'state reached' helper
 			okCmp = isK && k == 1
 		}
@@ -1921,7 +1947,34 @@ func (c *Ctx) invokeSendFailureReturns() (inv *ssa.Function, rets []*ssa.Return)
 			}
 		}
 		if afterSend && !afterRecv {
-			rets = append(rets, ret)
+			// `if err := st.sendRequest(req); err != nil { return err }`: the sending (and aborting) was moved into a helper
+			// used only here; its failure returns are the send-failure returns
+			expanded := false
+			if t := returnTuple(ret); len(t) > 0 && t[len(t)-1] != nil {
+				if call, isCall := stripConv(t[len(t)-1]).(*ssa.Call); isCall {
+					if h := inlinedCallee(call); h != nil {
+						hasSend := false
+						allInstrsLocal(h, func(x ssa.Instruction) {
+							if ci, ok := x.(*ssa.Call); ok && staticCallee(ci) == a.ClientSend {
+								hasSend = true
+							}
+						})
+						if hasSend {
+							for _, hr := range returnsOf(h) {
+								ht := returnTuple(hr)
+								if len(ht) == 0 || ht[len(ht)-1] == nil || isNilConst(ht[len(ht)-1]) {
+									continue
+								}
+								rets = append(rets, hr)
+								expanded = true
+							}
+						}
+					}
+				}
+			}
+			if !expanded {
+				rets = append(rets, ret)
+			}
 		}
 	}
 	return inv, rets
@@ -2070,4 +2123,41 @@ func ruleInvokeReportsOutcome(c *Ctx, rule string) {
 		c.check(okCases && nOutcome >= 1 && nSend >= 1, rule, key+": outcome when it is a failure, else the send error", w.At(ret), fmt.Sprintf("%d outcome alternative(s) under outcome != nil && outcome != EOF, %d send-error alternative(s)", nOutcome, nSend), why)
 	}
 	c.floor(rule, len(rets), 1, "send-failure returns of Invoke (SendMsg, CloseSend)")
+}
+
+// isFieldLoadThrough: v is a load of field fr, directly or as the result of a small accessor of the package (possibly shared
+// by several callers) every return of which is such a load (`s.currentState()`).
+func isFieldLoadThrough(v ssa.Value, fr FieldRef) bool {
+	if isFieldLoad(v, fr) || isFieldLoad(origin(v), fr) {
+		return true
+	}
+	call, ok := stripConv(v).(*ssa.Call)
+	if !ok {
+		return false
+	}
+	h := helperCallee(call)
+	if h == nil {
+		return false
+	}
+	n, okAll := 0, true
+	for _, ret := range returnsOf(h) {
+		if len(ret.Results) != 1 {
+			return false
+		}
+		n++
+		rv := ret.Results[0]
+		if isFieldLoad(rv, fr) || isFieldLoad(origin(rv), fr) {
+			continue
+		}
+		// a named result / local kept in memory: the single value stored
+		if u, isU := stripConv(rv).(*ssa.UnOp); isU {
+			if al, isAl := u.X.(*ssa.Alloc); isAl {
+				if sv := singleStore(al); sv != nil && (isFieldLoad(sv, fr) || isFieldLoad(origin(sv), fr)) {
+					continue
+				}
+			}
+		}
+		okAll = false
+	}
+	return okAll && n > 0
 }
